@@ -6,12 +6,12 @@ from vlib.core import Result
 NAME = "attnotify"
 LEAN_MODULE = "BluetoeModel.AttNotify"
 DRIVER = "drv_attnotify"
-HARNESS_DESC = "harness/attnotify.cpp (real server<>::notify/indicate by value and by UUID, real notification queue, real l2cap_output; 15 server types)"
-# -O0: the family instantiates 15 server types; -O1 triples the build time and buys nothing here
+HARNESS_DESC = "harness/attnotify.cpp (real server<>::notify/indicate by value and by UUID, real notification queue, real l2cap_output; 19 server types)"
+# -O0: the family instantiates 19 server types; -O1 triples the build time and buys nothing here
 HARNESS = dict(src="harness/attnotify.cpp",
                flags=["-O0", "-g", "-fsanitize=address,undefined", "-fno-sanitize-recover=all", "-fno-omit-frame-pointer", "-w"])
 
-SERVERS = ["P1", "P2", "P3", "P4", "P5", "P6", "P7", "P8", "E1", "E2", "H1", "R1", "M1", "D1", "U1"]
+SERVERS = ["P1", "P2", "P3", "P4", "P5", "P6", "P7", "P8", "E1", "E2", "H1", "R1", "M1", "D1", "U1", "X1", "X2", "X3", "C3"]
 KBIT = {"n": 1, "i": 2}
 OPC = {0x1B: "n", 0x1D: "i"}
 
@@ -49,8 +49,19 @@ class Decl:
     def by_cell(self, cell):
         return [j for j, c in enumerate(self.cccd) if c["cell"] == cell]
 
-    def by_uuid(self, uuid):
-        return [j for j, c in enumerate(self.cccd) if c["uuid"] == uuid]
+    def by_uuid(self, uuid, kind=None):
+        """the characteristic `notify< UUID >()` / `indicate< UUID >()` is about: the FIRST characteristic with
+        that UUID in declaration order (that is the one the call's static_asserts are checked against, whatever the
+        outgoing priorities are; docs/attnotify.md "requested characteristic"). Returns its CCCD number — plus the
+        numbers of characteristics of the identical C++ type (all options equal), which no lookup can tell apart —
+        or [] if that characteristic has no CCCD / not the property (the call does not compile)."""
+        first = next((c for c in self.chars if c["uuid"] == uuid), None)
+        if first is None or not (first["notify"] or first["indicate"]):
+            return []
+        if kind is not None and not first["notify" if kind == "n" else "indicate"]:
+            return []
+        rec = lambda c: tuple(c[f] for f in ("uuid", "cell", "size", "readable", "notify", "indicate", "extra"))
+        return [j for j, c in enumerate(self.cccd) if rec(c) == rec(first)]
 
 
 def load_decls(ctx):
@@ -179,7 +190,11 @@ class Monitor:
             self.cells[int(w[1])] = bytearray.fromhex(w[2])
         elif w[0] in ("nv", "nu") and out in ("0", "1"):
             c, k = int(w[1]), w[3]
-            js = d.by_cell(int(w[2])) if w[0] == "nv" else d.by_uuid(int(w[2]))
+            js = d.by_cell(int(w[2])) if w[0] == "nv" else d.by_uuid(int(w[2]), k)
+            if not js:
+                return ("C10:request-accepted-for-unnotifiable:" + w[0],
+                        "`%s` was accepted although %s" % (op, "no characteristic with a CCCD is bound to that variable" if w[0] == "nv" else
+                                                              "the first characteristic with that UUID has no CCCD / not that property"))
             for j in js:                      # ambiguous declarations (D1, U1): any of them may be meant
                 self.pending[c].setdefault((j, k), w[0])
             if len(js) > 1:
@@ -255,7 +270,7 @@ def monitor(d, ops, outs):
 
 def run_c10(ctx, replay_path=None):
     res = Result()
-    res.rule = ("15 real server<> types (1-6 characteristics with CCCD over 1-5 services, higher_outgoing_priority<> at service and/or "
+    res.rule = ("19 real server<> types (1-6 characteristics with CCCD over 1-5 services, characteristic UUIDs shared by several characteristics (16 and 128 bit), higher_outgoing_priority<> at service and/or "
                 "server level, notify/indicate/both, fixed handles, services without characteristics, no_read_access, max_mtu_size<65>, "
                 "ambiguous bindings). Per server: the declaration is read off the real types by the harness and handed to the model; "
                 "`table` compares EVERYTHING the templates computed (queue partition, cccd_indices, find_notification_data_by_index, "
@@ -331,6 +346,8 @@ PROPS = {
     "C10": dict(
         theorems=["BluetoeModel.AttNotify.notify_by_uuid_correct", "BluetoeModel.AttNotify.notify_by_value_correct",
                   "BluetoeModel.AttNotify.lookup_by_value", "BluetoeModel.AttNotify.lookup_by_uuid",
+                  "BluetoeModel.AttNotify.lookup_by_uuid_shared", "BluetoeModel.AttNotify.notify_by_uuid_shared_correct",
+                  "BluetoeModel.AttNotify.lookup_by_uuid_unnotifiable", "BluetoeModel.AttNotify.findCharByUuid_layout",
                   "BluetoeModel.AttNotify.find_by_index_correct", "BluetoeModel.AttNotify.output_correct",
                   "BluetoeModel.AttNotify.only_if_subscribed", "BluetoeModel.AttNotify.subscribe_exact",
                   "BluetoeModel.AttNotify.sortedPos_onto", "BluetoeModel.AttNotify.sortedPos_injective",
@@ -340,11 +357,12 @@ PROPS = {
                   "BluetoeModel.AttNotify.no_read_access_never_transmits"],
         witnesses=["BluetoeModel.AttNotify.notify_by_value_prefix_witness", "BluetoeModel.AttNotify.notify_by_value_prefix_sends_b",
                    "BluetoeModel.AttNotify.lookup_by_value_prefix_partial", "BluetoeModel.AttNotify.empty_service_prefix_witness",
-                   "BluetoeModel.AttNotify.unsubscribed_indication_blocks_witness"],
+                   "BluetoeModel.AttNotify.unsubscribed_indication_blocks_witness",
+                   "BluetoeModel.AttNotify.match_by_uuid_witness", "BluetoeModel.AttNotify.cccd_index_inverse_witness"],
         run=run_c10,
         level="proof",
         technique="Lean 4 proof over all server declarations as values (every number of services / characteristics, every priority "
-                  "declaration: the sort is proved a permutation for every priority assignment) + differential correspondence with 15 real "
+                  "declaration: the sort is proved a permutation for every priority assignment) + differential correspondence with 19 real "
                   "server<> types incl. exhaustive comparison of all template-computed lookup tables per server",
         level_text="For every declaration and every characteristic with a CCCD: notify/indicate by bound value (lookup_by_value, "
                    "variable bound once) and by UUID (lookup_by_uuid, UUID names the characteristic) queue exactly the index that "
@@ -355,14 +373,15 @@ PROPS = {
                    "(output_correct, only_if_subscribed, subscribe_exact); a repeated request changes nothing and answers false "
                    "(coalesced; coalesced_in_every_history on the byte-level queue model via C12's refinement).",
         level_note="Trusted: Lean kernel + propext/Quot.sound/Classical.choice; model = code as far as the differential check samples it "
-                   "(15 server types; for each the complete lookup tables are compared, the dynamic behaviour is sampled). The queue is "
+                   "(19 server types; for each the complete lookup tables are compared, the dynamic behaviour is sampled). The queue is "
                    "C12's set specification (NotifQueue.queue_refines_set ties it to notification_queue.hpp). The handle mapping is data "
                    "(C04), encryption requirements are not modelled (C05). Request-to-PDU is proved per step (request queues index i; "
                    "dequeued index i yields the PDU of that characteristic); that a queued entry is eventually dequeued is C11/C12. "
                    "lower_outgoing_priority<> is declared 'not implemented' in the library and does not compile, so it cannot be exercised.",
         design_ref="§5 C10",
-        assumptions=["a request by value names a characteristic only if the variable is bound to one characteristic with CCCD; by UUID only "
-                     "if the UUID is the first/only one and no second characteristic of the identical C++ type exists",
+        assumptions=["a request by value names a characteristic only if the variable is bound to one characteristic with CCCD; a request by "
+                     "UUID names the FIRST characteristic with that UUID in declaration order (UUIDs may be shared: lookup_by_uuid_shared), "
+                     "provided no second characteristic of the identical C++ type (same UUID, variable, options) exists",
                      "the two connections of the harness share one server object; the notification callback queues on the connection the "
                      "op names (what a link layer per connection does)"],
     ),
